@@ -32,7 +32,7 @@ RULE = ("1-3 blocks of 1-4 chain-bonded atoms with nrexcl drawn from 0..4 (30 % 
         "next-residue bond), links `a >b` / `a +b` making one bond per adjacent residue pair (15 % of the pairs left "
         "without link), explicit exclusions in blocks and links; residue graphs: paths, trees, one ring, 1-7 residues "
         "(10 thorough); non-trivial = at least two different exclusion distances among the residues and an "
-        "inter-residue bond; distinct = abstract case")
+        "inter-residue bond; 30 % of the cases with a bond made by a by_atom_id link; distinct = abstract case")
 
 
 # ------------------------------------------------------------------------------------------ generator
@@ -94,7 +94,15 @@ def gen_case(rng, max_res):
         block["ixns"] = [item for sec in order for item in block["ixns"] if item[0] == sec]
     nres = rng.randint(1, max_res) if rng.random() < 0.1 else rng.randint(2, max_res)
     graph = G.gen_graph(rng, nres, names, labelled=0.0, permute=0.3)
-    return dict(blocks=blocks, links=links, graph=graph)
+    case = dict(blocks=blocks, links=links, graph=graph)
+    # a bond made by a link that addresses atoms by number ([ molmeta ] by_atom_id true): ring closure / cross-link
+    if nres >= 2 and rng.random() < 0.3:
+        own = c10.ownership(case)
+        ra, rb = rng.sample(sorted(own), 2)
+        a, b = rng.choice(own[ra]) + 1, rng.choice(own[rb]) + 1
+        links.append(dict(molmeta={"by_atom_id": True}, atoms=[], edges=[], nonedges=[], patterns=[],
+                          ixns=[["bonds", [str(a), str(b)], ["1", "0.41", "700"], {}]]))
+    return case
 
 
 # ------------------------------------------------------------------------------------------ real run
